@@ -534,7 +534,7 @@ def plan(tier, seed, where, exes, harness, quick_exhaustive=QUICK_EXHAUSTIVE):
             fi = cfg.split("/")[1]
             if tier == "thorough" and shared:
                 # SharedFuture inputs add the shared state's own reference counting to every interleaving: capped
-                mode, args = "dfs-capped", ["--mode", "dfs", "--max", "40000"]
+                mode, args = "dfs-capped", ["--mode", "dfs", "--max", "30000"]
             elif tier == "thorough":
                 mode, args = "dfs", ["--mode", "dfs", "--max", "1500000"]
             elif fi in quick_exhaustive and arr != "q01":
